@@ -155,6 +155,9 @@ func c07Uncovered() []string {
 	check := func(prefix string, t reflect.Type) {
 		for i := 0; i < t.NumMethod(); i++ {
 			n := prefix + "." + t.Method(i).Name
+			if strings.HasPrefix(t.Method(i).Name, "Verif") {
+				continue // methods added by the verification export files (mc/export), not part of kevo
+			}
 			if !have[n] && c07Excluded[n] == "" {
 				missing = append(missing, n)
 			}
